@@ -80,6 +80,17 @@ func construct(base string, rp string, query *string, json bool) result {
 	if query != nil {
 		q = restli.QueryParamsString(*query)
 	}
+	// The resolver hands out the SAME *url.URL for every request of this client: an earlier request (to another entity,
+	// with another query) must leave no trace in it, neither in the next request nor in the resolver's own object
+	before := u.String()
+	if _, err := restli.NewGetRequest(c, context.Background(), restli.ResourcePathString("/root/earlier/sub/7"), restli.QueryParamsString("stale=1"), restli.Method_get); err == nil {
+		if after := u.String(); after != before {
+			violation("C15/resolver-url-modified", fmt.Sprintf("building a request changed the URL object owned by the resolver: %q -> %q", before, after),
+				map[string]any{"base": base})
+			u, _ = url.Parse(base)
+			c = &restli.Client{HostnameResolver: &restli.SimpleHostnameResolver{Hostname: u}}
+		}
+	}
 	var req interface{ GetURL() *url.URL }
 	_ = req
 	if json {
